@@ -30,9 +30,9 @@ type Sub struct {
 	// Serial marks sub-monitors that must run in a single worker (they start
 	// goroutines or processes of their own).
 	Serial bool
-	// CPUBudget is the CPU-seconds budget of one worker for this sub-monitor
-	// (0 = default).
-	CPUBudget func(tier string) float64
+	// CaseCPU is the CPU-seconds limit of a single case (0 = default 60). A
+	// case that exceeds it when run alone is reported as non-terminating.
+	CaseCPU float64
 }
 
 // Prop is a property check.
